@@ -14,6 +14,8 @@ from symx.core import Inconclusive, SBool, SInt, cur, fresh_bool, fresh_int, is_
 from symx.harness import SNP, stubs_description
 from symx.snp import SArr
 
+from props import alias_common as _alias
+
 ID = "C05"
 FORMATS = {"minimal": "_serialize_minimal", "soln_cat": "_serialize_minimal_soln_cat", "full": "_serialize_full"}
 
@@ -501,6 +503,7 @@ def jobs(tier, seed):
         files += [(5, [7] * 1000, "full"), (3, [1, 2] * 200, "soln_cat")]
     for n, lengths, fmt in files:
         out.append(dict(h="large", n=n, lengths=lengths, fmt=fmt, via_file=True, label=f"file:{fmt}:n={n}:{len(lengths)} mazes"))
+    out.append(dict(_alias.ALIAS_JOB))  # results must not alias library state, arguments or each other (props/alias_common.py)
     out[0]["twin"] = True
     return out
 
@@ -509,6 +512,7 @@ _P = dict(np_modules=["maze_dataset.maze.lattice_maze", "maze_dataset.dataset.ma
 HARNESSES = {"format": dict(run=_run_format, replay=_replay_format, patch=_P), "format_stale": dict(run=_run_format_stale, replay=_replay_format_stale, patch=_P), "dispatch": dict(run=_run_dispatch, replay=_replay_dispatch, patch=_P),
              "collection": dict(run=_run_collection, replay=_replay_collection, patch=_P),
              "large": dict(run=_run_large, replay=_replay_large, patch=dict(np_modules=[], stub_ascii=False))}
+HARNESSES["alias"] = _alias.alias_harness("C05")
 
 META = dict(
     functions=["MazeDataset.serialize (threshold dispatch)", "_serialize_minimal / _load_minimal", "_serialize_minimal_soln_cat / _load_minimal_soln_cat", "_serialize_full / _load_full",
@@ -529,3 +533,5 @@ META = dict(
              "datasets without any generation metadata in the minimal formats (the code asserts)"],
     assumptions=["zanj.load_item_recursive passes array objects through unchanged", "per-maze generation metadata of the shape the generators produce"],
 )
+
+META.setdefault("degenerate", {})["alias"] = _alias.ALIAS_META
